@@ -34,7 +34,7 @@ class TLCRun:
         self.timeout = timeout
         self.other: list[str] = []
         wd = os.path.join(SPEC, subdir)
-        cmd = ['java', '-XX:+UseParallelGC', f'-Xmx{heap}', f'-DTLA-Library={SPEC}{os.pathsep}{os.path.join(SPEC, "mc")}{os.pathsep}{os.path.join(SPEC, "trace")}',
+        cmd = ['java', '-XX:+UseParallelGC', '-Xss64m', f'-Xmx{heap}', f'-DTLA-Library={SPEC}{os.pathsep}{os.path.join(SPEC, "mc")}{os.pathsep}{os.path.join(SPEC, "trace")}',
                '-cp', f'{JAR}:{DEPS}', 'tlc2.TLC', '-workers', str(workers), '-metadir', os.path.join(self.tmp, 'meta'),
                '-noGenerateSpecTE', '-config', cfg]
         if simulate is not None:
@@ -54,12 +54,35 @@ class TLCRun:
         self.t0 = time.time()
         self.proc = subprocess.Popen(cmd, cwd=wd, stdout=subprocess.PIPE, stderr=subprocess.STDOUT, text=True, env=e,
                                      bufsize=1 << 20, start_new_session=True)
+        # watchdog: a TLC process that prints nothing for a long time is ended (observed once: a simulation shard went idle);
+        # what it emitted before stays valid, the run is marked 'stalled'
+        self.last_activity = time.time()
+        self.stalled = False
+        self.simulating = simulate is not None
+        self.thread_died = None
+        self.stall_after = 600 if simulate is None else 60
+        import threading
+
+        def watchdog():
+            while self.proc.poll() is None:
+                time.sleep(5)
+                if time.time() - self.last_activity > self.stall_after and self.proc.poll() is None:
+                    self.stalled = True
+                    self.cut = True
+                    try:
+                        os.killpg(self.proc.pid, signal.SIGKILL)
+                    except Exception:
+                        pass
+                    return
+        threading.Thread(target=watchdog, daemon=True).start()
 
     def lines(self, tags=('CASE',)) -> Iterator[tuple[str, str]]:
         n = 0
         prefix = {t: f'<<"{t}", ' for t in tags}
         try:
             for line in self.proc.stdout:
+                if not (self.simulating and line.startswith('Progress')):      # the once-a-minute progress report of an idle simulator is not activity
+                    self.last_activity = time.time()
                 line = line.rstrip('\n')
                 hit = False
                 for t, p in prefix.items():
@@ -88,6 +111,8 @@ class TLCRun:
                 if m:
                     self.states = int(m.group(1))
                     self.distinct = int(m.group(2))
+                if line.startswith('Exception in thread') or 'StackOverflowError' in line or 'OutOfMemoryError' in line:
+                    self.thread_died = line
                 if line.startswith('Error:') or 'Invariant' in line and 'violated' in line or 'Fatal' in line or 'overflow' in line.lower():
                     self.errors.append(line)
                 if line.startswith('Progress(') or 'states generated' in line or 'Model checking completed' in line or 'Finished' in line:
